@@ -160,4 +160,28 @@ def flattenT : List TEv → List Ev
   | .ev e :: r => e :: flattenT r
   | .sub k s inner :: r => (.call k s :: flattenT inner) ++ (.ret k :: flattenT r)
 
+/-! ### the wall loop of a trench call file -/
+
+/-- a leaf sub-program that moves in x / y only (what `export_array2d` writes: `G1 X… Y… [F…]`) -/
+def isLeafXY (body : List Stmt) : Bool :=
+  body.all fun s => match s with
+    | .atom (.g1 w) => w.z.isNone && w.zvar.isNone && w.u.isNone
+    | .atom .blank => true
+    | _ => false
+
+/-- the body of the wall loop as the reference controller parses it -/
+def wallLoopBody (p : String) (dz : Rat) : List Stmt :=
+  [.atom (.farcall p), .atom (.incVar "zcurr" dz), .atom (.g1 { zvar := some "ZCURR" })]
+
+/-- the loop body with the pause the compiler puts before every call when `short_pause` is not zero -/
+def wallLoopBodyD (q : Rat) (p : String) (dz : Rat) : List Stmt := .atom (.dwell q) :: wallLoopBody p dz
+
+/-- recognise a wall loop body in a parsed file: `[DWELL q]? FARCALL p; $ZCURR = $ZCURR + dz; G1 Z$ZCURR` -/
+def matchWallLoop (body : List Stmt) : Option (Option Rat × String × Rat) :=
+  match flattenStmts body with
+  | [.farcall p, .incVar "zcurr" dz, .g1 w] => if w = { zvar := some "ZCURR" } then some (none, p, dz) else none
+  | [.dwell q, .farcall p, .incVar "zcurr" dz, .g1 w] => if w = { zvar := some "ZCURR" } then some (some q, p, dz) else none
+  | _ => none
+
+
 end Femto.Ctl
